@@ -4,7 +4,9 @@ package props
 
 import (
 	"bytes"
+	"encoding/json"
 	"math"
+	"strconv"
 	"strings"
 	"testing"
 
@@ -21,6 +23,7 @@ type CaseC03 struct {
 	Ind     string      `json:"ind,omitempty"`
 	GoEmpty bool        `json:"go_empty,omitempty"`
 	PreFail bool        `json:"pre_fail,omitempty"` // failing encoder calls precede the call under test
+	Typed   []string    `json:"typed,omitempty"`    // Go types given to the numeric scalars, in walk order, cyclically ("" keeps float64)
 }
 
 func init() { register("C03", checkC03) }
@@ -76,7 +79,63 @@ func genC03(t *rapid.T) CaseC03 {
 			c.Tags = []string{"myroot", "myelem"}
 		}
 	}
+	if c.Mode != "j2x" && rapid.IntRange(0, 2).Draw(t, "typed") == 0 {
+		// a Map built in Go holds numbers of any numeric type, not only the float64 a JSON decoder produces
+		n := rapid.IntRange(1, 4).Draw(t, "ntyped")
+		for i := 0; i < n; i++ {
+			c.Typed = append(c.Typed, rapid.SampledFrom(goNumTypes).Draw(t, "gotype"))
+		}
+	}
 	return c
+}
+
+// the numeric types the encoder documents: float64, int, int32, int64, float32 (and json.Number from a UseNumber decode)
+var goNumTypes = []string{"float32", "float32", "int", "int64", "int32", "json.Number", ""}
+
+// materialize gives the float64 scalars of v the Go types listed in typed (walk order: sorted keys, list order).
+func materialize(v interface{}, typed []string, n *int) interface{} {
+	if len(typed) == 0 {
+		return v
+	}
+	switch x := v.(type) {
+	case map[string]interface{}:
+		for _, k := range sortedKeys(x) {
+			x[k] = materialize(x[k], typed, n)
+		}
+		return x
+	case []interface{}:
+		for i := range x {
+			x[i] = materialize(x[i], typed, n)
+		}
+		return x
+	case float64:
+		t := typed[*n%len(typed)]
+		*n++
+		integral := x == math.Trunc(x) && math.Abs(x) < 1e15
+		switch {
+		case t == "float32":
+			if f := float32(x); !math.IsInf(float64(f), 0) && !math.IsNaN(float64(f)) {
+				return f
+			}
+		case t == "json.Number":
+			return json.Number(strconv.FormatFloat(x, 'g', -1, 64))
+		case t == "int" && integral:
+			return int(x)
+		case t == "int64" && integral:
+			return int64(x)
+		case t == "int32" && integral && math.Abs(x) < 1<<31:
+			return int32(x)
+		case t == "int8" && integral && math.Abs(x) < 128:
+			return int8(x)
+		case t == "uint" && integral && x >= 0:
+			return uint(x)
+		case t == "uint8" && integral && x >= 0 && x < 256:
+			return uint8(x)
+		case t == "uint64" && integral && x >= 0:
+			return uint64(x)
+		}
+	}
+	return v
 }
 
 // failingEncodes calls the encoders with values they must reject; whatever they do, they must not
@@ -143,7 +202,10 @@ func checkC03(c CaseC03, info *Info) *Failure {
 	var x []byte
 	var err error
 	var root *XElem
-	val := deepCopy(c.Value)
+	var n1, n2 int
+	val := materialize(deepCopy(c.Value), c.Typed, &n1)
+	orig := materialize(deepCopy(c.Value), c.Typed, &n2)
+	info.ClassIf(len(c.Typed) > 0 && n1 > 0, "numbers of Go types other than float64")
 	switch c.Mode {
 	case "map-xml-root", "map-indent-root":
 		m, ok := val.(map[string]interface{})
@@ -233,7 +295,7 @@ func checkC03(c CaseC03, info *Info) *Failure {
 	if werr := wellFormedSingleRoot(x); werr != nil {
 		return failf("not-well-formed", "mode %s value %s -> %q: %v", c.Mode, canon(c.Value), x, werr)
 	}
-	if !valEqual(val, c.Value) {
+	if !valEqual(val, orig) {
 		return failf("receiver-modified", "mode %s value %s changed to %s", c.Mode, canon(c.Value), canon(val))
 	}
 	resetOptions()
